@@ -260,12 +260,12 @@ pub trait MdkStorageProvider {
     // rollback bookkeeping: effects on the tables are left abstract (any change to `messages` /
     // `processed`), the call itself is recorded so that order conditions can be stated
     fn invalidate_messages_after_epoch(&self, group_id: &GroupId, epoch: u64, Tracked(w): Tracked<&mut World>) -> (r: Result<Vec<EventId>, MessageError>)
-        requires old(w).rolled_back_to == Some(epoch), //@L[error_recovery.invalidate_only_after_rollback_same_epoch|C01,C02|callsite-requires]
+        requires old(w).rolled_back_to == Some(epoch), //@L[error_recovery.invalidate_only_after_rollback_same_epoch|C01,C02,C06|callsite-requires]
         ensures *final(w) == (World { messages: final(w).messages, invalidated_after: Some(epoch), last_invalidated: final(w).last_invalidated, ..*old(w) }),
                 r is Ok ==> final(w).last_invalidated == r->Ok_0@,
                 r is Err ==> final(w).last_invalidated == Seq::<EventId>::empty();
     fn invalidate_processed_messages_after_epoch(&self, group_id: &GroupId, epoch: u64, Tracked(w): Tracked<&mut World>) -> (r: Result<Vec<EventId>, MessageError>)
-        requires old(w).rolled_back_to == Some(epoch), //@L[error_recovery.invalidate_processed_only_after_rollback_same_epoch|C01,C02|callsite-requires]
+        requires old(w).rolled_back_to == Some(epoch), //@L[error_recovery.invalidate_processed_only_after_rollback_same_epoch|C01,C02,C06|callsite-requires]
         ensures *final(w) == (World { processed: final(w).processed, invalidated_processed_after: Some(epoch), ..*old(w) });
     fn find_failed_messages_for_retry(&self, group_id: &GroupId, Tracked(w): Tracked<&mut World>) -> (r: Result<Vec<EventId>, MessageError>)
         ensures *final(w) == (World { last_refetch: final(w).last_refetch, retry_marked: Seq::<EventId>::empty(), ..*old(w) }),
